@@ -129,3 +129,10 @@ CHECKS["C16"] = dict(
  text="(a) grammar.pest is parsed at check time; every derivation that departs from the minimal one in <= 3 (quick) / <= 4 (thorough) decision points (alternative, repetition count, optional) for 15 roots (declaration, value in 4 embeddings, type in 2, class, import, function, reassignment, number_loop, if_statement, list, map) x 6 host contexts x preludes declaring the identifier with 3 (quick) / 8 (thorough) different types; (b) every single-token mutation (delete, duplicate, swap, replace by / insert each token of a 24- / 53-token alphabet) at every token position of the 6 smallest (quick) / all (thorough, capped) single-module corpus files; (c) nesting towers of 13 nestable constructs up to 4 kB. Oracle: `mscript compile` ends within 10 s with exit 0 or exit 1 + diagnostic; panic / abort / timeout is a violation, keyed by panic site and message.",
  note="Thorough tier explored 6.6 M inputs in 30 min on the pinned tree (12 distinct crash sites, all listed as known findings). Arbitrary byte soup is not covered.",
  design_ref="DESIGN.md section 4, C16")
+
+CHECKS["C03"] = dict(
+ category="fault_enumeration",
+ technique="exhaustive fault enumeration: every (host context, fault of a fixed catalogue) pair compiled by the real CLI, with positive controls per host",
+ text="10 host contexts (module level, function body, closure body, class method, constructor, else-if arm, while body, from body, doubly nested block, imported module) x 77 type-breaking edits (wrong-typed annotated initialiser incl. alias / class / optional / function types, re-assignment with another type of a variable / field / list element / map value / through an op-assignment, wrong argument type and count for functions / methods / constructors / built-ins, wrong / missing / superfluous return value, optional returned as plain, non-boolean conditions in if / else-if / while / assert / ! / &&, unknown name / type / field / method, call of a non-callable, index of a non-indexable, non-index index, wrong map key type, operators on unsupported kinds, optional misuse, from-loop bound / step of the wrong type, break / continue outside a loop). The first statement prints a marker. Oracle: `mscript run` exits 1 with 'Did not compile', never a panic; the marker is not printed; a diagnostic names the file containing the edited statement and a line inside it. Each host is also run without a fault (must compile and print the marker).",
+ note="The catalogue is fixed; faults are single-statement edits on hosts that declare one variable of each type.",
+ design_ref="DESIGN.md section 4, C03")
